@@ -182,3 +182,69 @@ theorem extent_shape_eq (p f : Fld K) (h : p.extent = f.extent) : p.arr.s0 = f.a
   omega
 
 end Lentil
+
+/-! ### concrete witnesses used by the non-vacuity examples and the known-finding lemmas of Props/C07, Props/C03 -/
+namespace Lentil.Witness
+open Lentil
+
+/-- a one-pixel segment at pixel (1, 1) of a 5×5 plane -/
+def g1 : Seg := ⟨fun i j => decide (i = 1) && decide (j = 1), ⟨1, 2, 1, 2⟩⟩
+/-- a 2×3 block, rows 2..3, columns 2..4 -/
+def g2 : Seg := ⟨fun i j => decide (2 ≤ i) && decide (i ≤ 3) && decide (2 ≤ j) && decide (j ≤ 4), ⟨2, 4, 2, 5⟩⟩
+/-- a 1×4 strip in row 0 -/
+def g3 : Seg := ⟨fun i j => decide (i = 0) && decide (j ≤ 3) && decide (0 ≤ j), ⟨0, 1, 0, 4⟩⟩
+/-- the union of `g2` and `g3` with its bounding slice -/
+def g23 : Seg := ⟨fun i j => [g2.m, g3.m].any (fun m => m i j), ⟨0, 4, 0, 5⟩⟩
+/-- the union of `g1` and `g2` with its bounding slice -/
+def g12 : Seg := ⟨fun i j => [g1.m, g2.m].any (fun m => m i j), ⟨1, 4, 1, 5⟩⟩
+/-- the fresh wavefront's field -/
+def w0 : Fld Int := ⟨⟨1, 1, fun _ _ => 1⟩, 0, 0⟩
+/-- a 5×5 array field -/
+def a55 : Fld Int := ⟨⟨5, 5, fun i j => i + 2 * j + 1⟩, 0, 0⟩
+def ones55 : Fld Int := ⟨⟨5, 5, fun _ _ => 1⟩, 0, 0⟩
+def ph1 : Int → Int := fun _ => 1
+
+theorem g2_ok : g2.covers 5 5 ∧ (g2.s.r0 < g2.s.r1 ∧ g2.s.c0 < g2.s.c1 ∧ ¬ (g2.s.r1 - g2.s.r0 = 1 ∧ g2.s.c1 - g2.s.c0 = 1)) := by
+  refine ⟨⟨by decide, by decide, by decide, by decide, ?_⟩, by decide⟩
+  intro i j _ _ _ _ h
+  simp only [g2, Bool.and_eq_true, decide_eq_true_eq] at h ⊢
+  omega
+
+theorem g1_covers : g1.covers 5 5 := by
+  refine ⟨by decide, by decide, by decide, by decide, ?_⟩
+  intro i j _ _ _ _ h
+  simp only [g1, Bool.and_eq_true, decide_eq_true_eq] at h ⊢
+  omega
+
+theorem g23_disjoint : ([g2, g3].map Seg.m).Pairwise (fun a b => ∀ i j, ¬ (a i j = true ∧ b i j = true)) := by
+  simp only [List.map_cons, List.map_nil, List.pairwise_cons, List.mem_cons, List.not_mem_nil, or_false, forall_eq,
+    List.Pairwise.nil, and_true]
+  refine ⟨?_, by simp⟩
+  intro i j h
+  simp only [g2, g3, Bool.and_eq_true, decide_eq_true_eq] at h
+  omega
+
+theorem g12_disjoint : ([g1, g2].map Seg.m).Pairwise (fun a b => ∀ i j, ¬ (a i j = true ∧ b i j = true)) := by
+  simp only [List.map_cons, List.map_nil, List.pairwise_cons, List.mem_cons, List.not_mem_nil, or_false, forall_eq,
+    List.Pairwise.nil, and_true]
+  refine ⟨?_, by simp⟩
+  intro i j h
+  simp only [g1, g2, Bool.and_eq_true, decide_eq_true_eq] at h
+  omega
+
+theorem chain_ok : ChainOK ph1 [(⟨.scalar 2, .scalar 0, .segs 5 5 [g2, g3]⟩ : PlaneM Int Int)] [w0] := by
+  refine ⟨?_, ?_, ?_, ?_, trivial⟩
+  · intro f hf; simp only [List.mem_cons, List.not_mem_nil, or_false] at hf; subst hf; decide
+  · intro q hq; simp only [planePhasors, List.map_cons, List.map_nil, List.mem_cons, List.not_mem_nil, or_false] at hq
+    rcases hq with rfl | rfl <;> decide
+  · intro f hf q hq
+    simp only [planePhasors, List.map_cons, List.map_nil, List.mem_cons, List.not_mem_nil, or_false] at hq hf
+    subst hf
+    rcases hq with rfl | rfl <;> rfl
+  · intro g hg
+    have h : (planeMultiply ph1 (⟨.scalar 2, .scalar 0, .segs 5 5 [g2, g3]⟩ : PlaneM Int Int) [w0]).all
+        (fun g => !g.size1) = true := by rfl
+    have := List.all_eq_true.mp h g hg
+    simpa using this
+
+end Lentil.Witness
